@@ -154,6 +154,9 @@ func buildConcApp(dir string) *flamego.Flame {
 	f.Get("/cap/{p: **, capture: 2}/end", func(c flamego.Context) string { return echo("cap", c) })        // match-all subtree with limit
 	f.Get("/opt/{a}/?{b}", func(c flamego.Context) string { return echo("opt", c) }).Name("opt")           // optional
 	f.Get("/hdr/{v}", func(c flamego.Context) string { return echo("hdr", c) }).Headers("X-Kind", "^a")    // header-constrained
+	// two constrained headers with DIFFERENT expressions: the same value string means one thing under one name and another
+	// under the other (a verdict remembered per value would be carried from one request to the next)
+	f.Get("/hdr2/{v}", func(c flamego.Context) string { return echo("hdr2", c) }).Headers("X-Api-Version", "^2$", "X-Shard", "^[0-9]+$")
 	f.Any("/any/{v}", func(c flamego.Context) string { return echo("any", c) })
 	f.Combo("/combo/{v}").Get(func(c flamego.Context) string { return echo("combo-get", c) }).
 		Post(func(c flamego.Context) string { return echo("combo-post", c) })
@@ -248,7 +251,7 @@ func concRequests(r *rand.Rand, n int) []concReq {
 	var out []concReq
 	for i := 0; i < n; i++ {
 		q := concReq{Method: "GET", Header: map[string]string{"X-Req-Id": fmt.Sprintf("r%d", i)}}
-		switch k := r.Intn(44); k {
+		switch k := r.Intn(46); k {
 		case 0:
 			q.Kind, q.Path = "static-root", "/"
 		case 1:
@@ -340,6 +343,16 @@ func concRequests(r *rand.Rand, n int) []concReq {
 			q.Header["X-Tenant"] = w()
 		case 39:
 			q.Kind, q.Path = "fi-custom-missing", []string{"/fi/custom/", "/fi/chain/"}[r.Intn(2)]+w() // no X-Tenant: injection fails
+		case 41:
+			// the same two value strings under the two constrained names, either way round (only one way satisfies both)
+			q.Kind, q.Path = "header-two-names", "/hdr2/"+w()
+			a, b := []string{"2", "7", "x"}[r.Intn(3)], []string{"2", "7", "x"}[r.Intn(3)]
+			q.Header["X-Api-Version"], q.Header["X-Shard"] = a, b
+		case 42:
+			// a method no route was registered for, and one the framework has never heard of: serving must not create
+			// anything for it
+			q.Kind, q.Path = "method-without-routes", []string{"/users/" + w(), "/", "/nowhere"}[r.Intn(3)]
+			q.Method = []string{"OPTIONS", "TRACE", "CONNECT", "PROPFIND", "brew", "LOCK", "M-SEARCH"}[r.Intn(7)]
 		case 40:
 			// not found AFTER the matcher has bound something: a leading bind segment matches, a later segment fails
 			q.Kind = "not-found-after-bind"
@@ -454,7 +467,7 @@ func concMain(args []string) {
 	}
 	var lazy []int // requests whose first service makes the framework fill something lazily (injector search, Once strings)
 	for i, q := range reqs {
-		if strings.HasPrefix(q.Kind, "svc-") || q.Kind == "urlpath" || q.Kind == "scoped" || q.Kind == "render-json" {
+		if strings.HasPrefix(q.Kind, "svc-") || q.Kind == "urlpath" || q.Kind == "scoped" || q.Kind == "render-json" || q.Kind == "method-without-routes" {
 			lazy = append(lazy, i)
 		}
 	}
